@@ -23,6 +23,7 @@ import (
 func TestMain(m *testing.M) {
 	vh.Rule("rapid: histories of 1..6 request/response rounds on one channel (packet level, deterministic); per round a response from the grammar (empty of delivered packages, rows, several result sets with DONE(MORE), trailing DONE with COUNT/PROC/ERROR/INXACT bits, EED interleaved, final DONE by the server, a non-final DONE, or none), a packetisation (optionally with extra status bits next to EOM), an optional request sent before it or completing only after the first response packets have arrived, and a consumer strategy: NextPackage until the final DONE, or NextPackageUntil with a per-package plan of callback results (continue, true, io.EOF, another error, an error that wraps io.EOF) or a nil callback. Oracle: a model holds the expected consumer view of every round; the consumer must see exactly that (one DONE with final status, last), a callback error must come back (errors.Is) with the queue empty afterwards, nothing may be left over or duplicated into the next round; a 2 s watchdog only fires if the final DONE is missing. Non-trivial: >= 2 rounds and (the previous round ended with a server DONE(FINAL), or the callback aborted early, or the response spans several packets); distinct by the history")
 	vh.Assume("a DONE-family package with status 0 only ends a response; all packets of a response are delivered before the consumer reads (the concurrent case is C12/C13); non-informational EED only between statements")
+	vh.QuietLog()
 	vh.Main(m, "C03")
 }
 
@@ -47,6 +48,8 @@ type round struct {
 
 type c03Case struct {
 	Rounds []round `json:"rounds"`
+	// Log: Info.DebugLogPackages - every package sent / received is printed
+	Log bool `json:"debug_log_packages,omitempty"`
 }
 
 var errCB = errors.New("consumer callback failed")
@@ -81,7 +84,7 @@ func runCase(c c03Case) (f *vh.Failure) {
 	bg, cancel := context.WithCancel(context.Background())
 	defer cancel()
 	pipe := peer.NewPipe()
-	conn, _, err := tds.VerifNewConn(bg, pipe, &tds.Info{ChannelPackageQueueSize: 4096}, false)
+	conn, _, err := tds.VerifNewConn(bg, pipe, &tds.Info{ChannelPackageQueueSize: 4096, DebugLogPackages: c.Log}, false)
 	if err != nil {
 		vh.HarnessBug("VerifNewConn: %v", err)
 	}
@@ -358,6 +361,9 @@ func runCase(c c03Case) (f *vh.Failure) {
 		prevServerFinal = serverFinal
 	}
 	vh.Label(fmt.Sprintf("rounds=%d", len(c.Rounds)))
+	if c.Log {
+		vh.Label("debug-log-packages")
+	}
 	if nontrivial {
 		vh.NonTrivial(fmt.Sprintf("%+v", c))
 	}
@@ -406,6 +412,7 @@ func TestRounds(t *testing.T) {
 		for i := 0; i < n; i++ {
 			c.Rounds = append(c.Rounds, genRound(rt))
 		}
+		c.Log = rapid.IntRange(0, 3).Draw(rt, "log") == 0
 		if n <= 2 && len(fmt.Sprint(c)) < 600 {
 			vh.Sample("history", c)
 		}
